@@ -190,7 +190,11 @@ def exit_check(q, kind):
         if kind == "call" and not (d["unlink"] and d["push"]):
             out.append("C03.d: a saturated expectation stays in the active list / is not moved to the saturated list")
     if d["sat"] is None and d["inc"] >= 1:
-        out.append("C03.d: saturation is not checked after counting the call")
+        if kind == "call":
+            out.append("C03.d: saturation is not checked after counting the call")
+        else:
+            out.append("C06.c: a monitor whose object has died (satisfied and saturated) never leaves its "
+                       "sequences: saturation is not checked after counting the destruction")
     if kind == "call" and d["forb"] is True:
         out.append("C07.b: a forbidden call is accepted (the forbidden branch continues)")
     if kind == "death" and not d["died"]:
